@@ -239,7 +239,8 @@ CLAIMED = {
        "Sigma[n:, n:], K*x = Sigma[n:, :n] on both sides of the eager-size threshold (symbolic n, s, batch); _mean_cache('ignore') = "
        "SOLVE(cov(likelihood(train prior, train inputs)), y - marginal mean) with and without detach; exact_predictive_mean = m* + K*x @ "
        "mean_cache; exact_predictive_covar (fast_pred_var off) = K** - K*x @ SOLVE(cov(likelihood(N(0, Kxx))), Kx*) for tensor and operator "
-       "arguments (addmm alpha/beta honoured), a zero operator of the test size under skip_posterior_variances; ExactGP.__call__ in evaluation mode "
+       "arguments (addmm alpha/beta honoured), a zero operator of the test size under skip_posterior_variances; with fast_pred_var on, K** - (K*x R)(K*x R)^T "
+       "for the inverse root R the dependency returns (R R^T = (Kxx + S)^-1 as callee contract), remembering the test-train block; ExactGP.__call__ in evaluation mode "
        "builds the strategy once from forward(train inputs), labels and likelihood, evaluates forward on cat([train, test]) and returns the "
        "joint's class of (mean, covariance). 'The likelihood adds exactly the observation noise' is C12's contract. Bounded tier (not counted): "
        "dense float64 conditional vs model(x*) and likelihood(model(x*)) for 6 likelihood families x 6 kernels x 3 means, n in {1,2,7}, 10 batch "
@@ -247,8 +248,8 @@ CLAIMED = {
        "fast_pred_var, detach_test_caches, skip_posterior_variances), repeated predictions on one object.",
   design_ref="DESIGN.md section 5, C01",
   note="Exactness of solve / root_inv_decomposition / CG / Lanczos is the dependency's contract (assumed in the proof tier, measured in the bounded "
-       "tier: 1e-6 on direct paths, 1e-4 on CG paths whose stopping rule is not controlled by cg_tolerance). The fast_pred_var path (covar_cache, "
-       "root decompositions) and the kernel-specific strategies are bounded-tier only. Known findings: a linear_operator defect in "
+       "tier: 1e-6 on direct paths, 1e-4 on CG paths whose stopping rule is not controlled by cg_tolerance). The kernel-specific strategies and the "
+       "fantasy updates are bounded-tier only. Known findings: a linear_operator defect in "
        "KroneckerProductAddedDiagLinearOperator._root_inv_decomposition (wrong multitask covariances with fast_pred_var above max_cholesky_size) and "
        "targets that carry a batch dimension the inputs do not (prediction raises).",
   technique="contract-based deductive verification: AST-extracted real functions, elementwise tensor domain with binder-free sums, linear solves as callee contracts (stubs), z3"),
